@@ -148,8 +148,9 @@ impl Check for C01 {
         let mut w = World::new(&env.data, trace.salt, t0);
         w.explain = env.explain;
         let mut last_t = t0;
-        let mut last_slots: Option<usize> = None;
-        let mut session_lang = String::from("en");
+        // per session client: slot count of its current text, its language
+        let mut last_slots_of: std::collections::BTreeMap<u8, usize> = std::collections::BTreeMap::new();
+        let mut lang_of: std::collections::BTreeMap<u8, String> = std::collections::BTreeMap::new();
         for (ei, ev) in trace.events.iter().enumerate() {
             let t = ev.clock.base();
             if t != last_t { rep.count("clock.advance_between_ops"); }
@@ -166,10 +167,11 @@ impl Check for C01 {
                 }
                 Op::Checkpoint { .. } | Op::Nested { .. } | Op::SessionFormat => {}
                 Op::SessionLang { lang } => {
-                    if w.sessions.contains_key(&ev.actor) { w.session_set_language(ev.actor, lang); session_lang = lang.clone(); rep.count("session.language_switch"); }
+                    if w.sessions.contains_key(&ev.actor) { w.session_set_language(ev.actor, lang); lang_of.insert(ev.actor, lang.clone()); rep.count("session.language_switch"); }
                 }
                 Op::SessionRerun => {
                     // the session is evaluated once more without a new text: a one-line text yields its one slot again
+                    let last_slots = last_slots_of.get(&ev.actor).cloned();
                     if last_slots.is_none() && w.sessions.contains_key(&ev.actor) {
                         // before any text was set: the call has nothing to evaluate but must return
                         let (o, _) = w.session_rerun(ev.actor, &ev.clock);
@@ -196,13 +198,13 @@ impl Check for C01 {
                 Op::SessionNew { lang } => {
                     if w.sessions.contains_key(&ev.actor) { rep.count("session.drop_recreate"); }
                     w.session_new(ev.actor, lang);
-                    session_lang = lang.clone();
-                    last_slots = None;
+                    lang_of.insert(ev.actor, lang.clone());
+                    last_slots_of.remove(&ev.actor);
                 }
                 Op::Execute { .. } | Op::SessionText { .. } => {
                     let (lang, text, is_session) = match &ev.op {
                         Op::Execute { lang, text } => (lang.clone(), text, false),
-                        Op::SessionText { text } => (session_lang.clone(), text, true),
+                        Op::SessionText { text } => (lang_of.get(&ev.actor).cloned().unwrap_or_else(|| "en".into()), text, true),
                         _ => unreachable!(),
                     };
                     if is_session && !w.sessions.contains_key(&ev.actor) { w.session_new(ev.actor, &lang); }
@@ -225,8 +227,8 @@ impl Check for C01 {
                     for l in rendered.iter() { if let Some(k) = dst_class(l, date, env) { rep.count(k); } }
                     if boundary_near(t) { rep.count("clock.frozen_boundary"); }
                     if is_session {
-                        match last_slots { Some(p) if p > want => rep.count("session.swap_shrink"), Some(p) if p < want => rep.count("session.swap_grow"), Some(_) => rep.count("session.swap_same"), None => {} }
-                        last_slots = Some(want);
+                        match last_slots_of.get(&ev.actor).cloned() { Some(p) if p > want => rep.count("session.swap_shrink"), Some(p) if p < want => rep.count("session.swap_grow"), Some(_) => rep.count("session.swap_same"), None => {} }
+                        last_slots_of.insert(ev.actor, want);
                     }
                     let calls_before = w.log.borrow().len();
                     let (o, clk) = if is_session { w.session_text(ev.actor, &full, &ev.clock) } else { w.execute(&lang, &full, &ev.clock) };
